@@ -7,7 +7,10 @@ package verifbubble
 
 import (
 	"fmt"
+	"runtime"
+	"runtime/debug"
 	"strings"
+	"sync"
 	"testing"
 	"testing/synctest"
 	"time"
@@ -23,9 +26,18 @@ type Outcome struct {
 	// Hang is set when the bubble did not reach quiescence within the
 	// real-time watchdog (a goroutine is stuck on a mutex, or spins).
 	Hang bool
+	// Deadlock is set when the controller itself blocked with every other
+	// goroutine of the bubble blocked too and no timer pending.
+	Deadlock string
 	// Panic is a panic raised by the body or a bubble goroutine.
 	Panic any
 }
+
+var (
+	gcOnce  sync.Once
+	runs    int
+	gcEvery = 200
+)
 
 // Watchdog is the real-time limit for one bubble.
 var Watchdog = 120 * time.Second
@@ -34,6 +46,16 @@ var Watchdog = 120 * time.Second
 // stream is reset first, so the execution is a pure function of the choices
 // body makes.
 func Run(t *testing.T, body func()) (out Outcome) {
+	// The garbage collector is kept out of executions: a stop-the-world
+	// phase re-queues the running goroutine and thereby changes the order
+	// in which runnable goroutines of the component get the processor,
+	// which is exactly the kind of run-to-run variation an execution must
+	// not have. Collection happens between executions instead.
+	gcOnce.Do(func() { debug.SetGCPercent(-1) })
+	runs++
+	if runs%gcEvery == 0 {
+		runtime.GC()
+	}
 	verifdetrt.Reset()
 	done := make(chan Outcome, 1)
 	go func() {
@@ -43,18 +65,39 @@ func Run(t *testing.T, body func()) (out Outcome) {
 			if r := recover(); r != nil {
 				msg := fmt.Sprint(r)
 				if strings.Contains(msg, "blocked goroutines remain") {
-					o.Leak = msg
+					if o.Panic == nil {
+						o.Leak = msg
+					}
+					return
+				}
+				if strings.Contains(msg, "all goroutines in bubble are blocked") {
+					o.Deadlock = msg
 					return
 				}
 				o.Panic = r
 			}
 		}()
-		synctest.Test(t, func(t *testing.T) { body() })
+		synctest.Test(t, func(t *testing.T) {
+			// A panic that leaves the body would be re-raised fatally by
+			// the testing package's runner, so it is caught here.
+			defer func() {
+				if r := recover(); r != nil {
+					o.Panic = r
+				}
+			}()
+			body()
+		})
 	}()
+	// exactly one real timer exists while the bubble runs, and none is left
+	// behind: stale real timers in the processor's timer heap would change
+	// its layout from run to run and with it the firing order of bubble
+	// timers that expire at the same virtual instant.
+	wd := time.NewTimer(Watchdog)
+	defer wd.Stop()
 	select {
 	case o := <-done:
 		return o
-	case <-time.After(Watchdog):
+	case <-wd.C:
 		return Outcome{Hang: true}
 	}
 }
